@@ -160,6 +160,7 @@ def units(tier):
         for case in sc.cases: us.append(('%s/%s' % (key, sc.case_name(case)), {'kind': 'hydro', 'key': key, 'case': case, 'tier': tier}))
     us += [(n, dict(k, kind='riemann', tier=tier)) for n, k in rk.units('C02', ['rootspec', 'shocks', 'contact'], tier)]
     us.append(('guderley', {'kind': 'gud'}))
+    us.append(('ehep', {'kind': 'ehep'}))
     us += [('sedov/geometry=%d' % j_, {'kind': 'sedov', 'key': j_}) for j_ in (1, 2, 3)]
     return us
 
@@ -170,6 +171,9 @@ def run_unit(name, kind, key=None, case=None, tier='quick', pat=None, fam=None):
     if kind == 'gud':
         from props import guderley_kit
         return guderley_kit.unit('C02')
+    if kind == 'ehep':
+        from props import ehep_kit
+        return ehep_kit.unit_boundaries()
     if kind == 'sedov':
         from props import sedov_kit
         return sedov_kit.unit_shock('C02', key)
